@@ -366,7 +366,7 @@ def run_unit(unit, repo='/repo', canary=True, keep=False, rlimit=None, workdir=N
         if any(x.startswith('FORBIDDEN') for x in res['trusted']):
             res['status'] = 'undecided'; res['problems'].append({'kind': 'forbidden-assume', 'detail': 'assume(/admit( in unit'})
         # canary
-        if canary and res['status'] == 'ok':
+        if canary and res['status'] in ('ok', 'failed') and not any(f['kind'] != 'definite' for f in res['failures']):
             ctext, expected = add_canaries(g)
             cpath = os.path.join(d, 'vxc_%s.rs' % unit['name'])
             open(cpath, 'w').write(ctext)
@@ -388,7 +388,8 @@ def run_unit(unit, repo='/repo', canary=True, keep=False, rlimit=None, workdir=N
                 # a canary can also be swallowed by an rlimit in that function: only call it vacuous when verus said "verified" for it
                 other = [x.get('message', '') for x in cv['diags'] if 'assertion failed' not in x.get('message', '')]
                 res['canary_missing'] = missing[:20]; res['canary_other'] = other[:5]
-                res['status'] = 'undecided'; res['problems'].append({'kind': 'vacuity', 'detail': 'canary not refuted in %s' % missing[:5]})
+                if res['status'] == 'ok': res['status'] = 'undecided'
+                res['problems'].append({'kind': 'vacuity', 'detail': 'canary not refuted in %s' % missing[:5]})
         if keep: res['kept'] = d
     finally:
         if not keep and not workdir: shutil.rmtree(d, ignore_errors=True)
